@@ -38,7 +38,7 @@ def sh(cmd, cwd=None, env=None, timeout=3600):
 def do_import(src):
     n = 0
     for d in sorted(os.listdir(src)):
-        m = re.fullmatch(r"(C\d\d)\.out", d)
+        m = re.fullmatch(r"(C\d\d)\.out\d*", d)
         if not m:
             continue
         for v in sorted(os.listdir(os.path.join(src, d))):
